@@ -168,7 +168,10 @@ macro_rules! probe_type {
                 true
             }
             fn par(cfg: &ParCfg, data: &[f64]) -> Option<Self> {
-                if !set_lookup(data) {
+                // indices are positions in the sequence that survives the filter stage
+                let kept: Vec<f64> =
+                    data.iter().copied().filter(|x| crate::est::keep(*x, cfg.filter_seed)).collect();
+                if !set_lookup(&kept) {
                     return None;
                 }
                 Some(crate::est::par_collect::<$alias>(cfg, data))
